@@ -214,9 +214,9 @@ func Layers(tier string) []*Layer {
 			one("P0", "B", ids(P0), AFP0Untagged, AFP0Moved),
 			one("W0", "B", ids(W0), AFW0S, AFW0Rev, AFP0Moved),
 			one("P0", "C", ids(P0), AFP0Untagged),
-			// two features at a time, one value per key on the second feature
-			&Layer{Name: "P0+W0", Base: "A", Ops: append(append(TagOps(ids(P0), Keys, Vals), TagOps(ids(W0), Keys, Vals[:1])...), AFP0Moved, AFW0Rev)},
-			&Layer{Name: "P1+P2+W1", Base: "A", Ops: append(append(TagOps(ids(P1), Keys, Vals[:1]), TagOps(ids(P2, W1), []string{"#s", "p"}, Vals[:1])...), AFP2Untagged, AFP2S, AFW1, AFP1T)},
+			// two or three features at a time over a reduced key/value set
+			&Layer{Name: "P0+W0", Base: "A", Ops: append(append(TagOps(ids(P0), []string{"#s", "p"}, Vals[:1]), TagOps(ids(W0), []string{"@t", "p"}, Vals[:1])...), AFP0Moved, AFW0Rev)},
+			&Layer{Name: "P1+P2+W1", Base: "A", Ops: append(append(append(TagOps(ids(P1), []string{"@t", "p"}, Vals[:1]), TagOps(ids(P2), []string{"#s", "p"}, Vals[:1])...), TagOps(ids(W1), []string{"p"}, Vals[:1])...), AFP2Untagged, AFP2S, AFW1, AFP1T)},
 			full("A", 4),
 		)
 	} else {
@@ -290,8 +290,17 @@ func (f *RefFeature) PlainTags() map[string]string {
 	return m
 }
 
+func (f *RefFeature) hasPlainTags() bool {
+	for k := range f.Tags {
+		if KeyClass(k) != "geometry" {
+			return true
+		}
+	}
+	return false
+}
+
 func (f *RefFeature) All() AllFlag {
-	if f.Kind != wk.KPoint || len(f.PlainTags()) > 0 {
+	if f.Kind != wk.KPoint || f.hasPlainTags() {
 		return AllMust
 	}
 	if f.LostLastTagByRemove {
@@ -322,7 +331,12 @@ func (r *RefWorld) Apply(o Op) (accepted bool, changed bool) {
 		nf := refFeature(*o.F)
 		nf.Touched = true
 		old, ok := r.F[o.ID]
-		changed = !ok || fmt.Sprint(old.Tags) != fmt.Sprint(nf.Tags) || old.LostLastTagByRemove
+		if ok && old.LostLastTagByRemove && nf.Kind == wk.KPoint && !nf.hasPlainTags() {
+			// re-adding an untagged point over one whose `all` membership is
+			// unspecified leaves it unspecified
+			nf.LostLastTagByRemove = true
+		}
+		changed = !ok || fmt.Sprint(old.Tags) != fmt.Sprint(nf.Tags) || old.LostLastTagByRemove != nf.LostLastTagByRemove
 		r.F[o.ID] = nf
 		return true, changed
 	case OpAddTag:
@@ -345,7 +359,7 @@ func (r *RefWorld) Apply(o Op) (accepted bool, changed bool) {
 		}
 		delete(f.Tags, o.Key)
 		f.Touched = true
-		if f.Kind == wk.KPoint && len(f.PlainTags()) == 0 {
+		if f.Kind == wk.KPoint && !f.hasPlainTags() {
 			f.LostLastTagByRemove = true
 		}
 		return true, true
